@@ -50,6 +50,13 @@ def _canon(v):
     return "other:" + type(v).__name__
 
 
+class Fresh(str):
+    """what a converter / factory callback returns: equal to (and canonicalised, printed, hashed like) the plain
+    symbolic string, but a NEW object per invocation -- so that C01 can tell a value produced during this call from
+    one produced earlier and shared between instances (plain str results of equal text could be the same object)"""
+    __slots__ = ()
+
+
 def _event(kind, field, idx, args, tag=""):
     TRACE.append({"id": {"kind": tag + kind, "field": field, "idx": idx}, "args": [_canon(a) for a in args]})
     if FAULT[0] == (kind, field, idx):
@@ -61,11 +68,11 @@ def mk_factory(name, takes_self):
     if takes_self:
         def factory(inst):
             _event("factory", name, 0, [inst], tag)
-            return f"{tag}factory.{name}(self)"
+            return Fresh(f"{tag}factory.{name}(self)")
     else:
         def factory():
             _event("factory", name, 0, [], tag)
-            return f"{tag}factory.{name}()"
+            return Fresh(f"{tag}factory.{name}()")
     return factory
 
 
@@ -79,7 +86,7 @@ def mk_converter(name, kind, ann):
         out = f"{tag}conv.{name}({_canon(value)}"
         for e in extra:
             out += "," + _canon(e)
-        return out + ")"
+        return Fresh(out + ")")
 
     if ann:
         # a first-parameter annotation the generated __init__ should pick up
@@ -392,15 +399,19 @@ def run_in(hspec, fault=None):
     auto_exc = leaf.get("auto_exc")
     if auto_exc is None:
         auto_exc = is_next_gen(leaf)
-    bases = []
-    for b in C.__mro__[1:-1]:
-        bases.append({
-            "hasSlotsDunder": "__slots__" in b.__dict__,
-            "attrs": [[a.name, bool(a.inherited)] for a in getattr(b, "__attrs_attrs__", [])],
-        })
     cbm = leaf.get("collect_by_mro")
     if cbm is None:
         cbm = is_next_gen(leaf)
+    bases = []
+    for b in C.__mro__[1:-1]:
+        # what the collector that will run sees of this class: `_collect_base_attrs` (collect_by_mro) reads the
+        # class's *own* `__attrs_attrs__` (a plain class contributes nothing, so it is never recorded in
+        # base_attr_map); the legacy `_collect_base_attrs_broken` still resolves it with getattr
+        seen = b.__dict__.get("__attrs_attrs__", ()) if cbm else getattr(b, "__attrs_attrs__", [])
+        bases.append({
+            "hasSlotsDunder": "__slots__" in b.__dict__,
+            "attrs": [[a.name, bool(a.inherited)] for a in seen],
+        })
     run = {
         "cfg": {
             "frozen": leaf_frozen(hspec),
